@@ -10,33 +10,39 @@ package arrays
 // The memory layout is never written in a specification: cells are observed
 // through getUnchecked, whose meaning is extracted from its code.
 
+// mark(x) is the engine's always-true marker; it only provides instantiation triggers for cell quantifiers.
+
 type Array2D(a) invariant a.width >= 0 && a.height >= 0 && len(a.slice) == a.width * a.height
 
 func New2D
   property C08
+  opt nla uf
   requires width >= 0 && height >= 0
   ensures[inv]   inv(result) && result.width == width && result.height == height
-  ensures[zero]  forall i, j :: 0 <= i && i < width && 0 <= j && j < height ==> result.getUnchecked(i, j) == zero(T)
+  ensures[zero]  forall i, j :: {mark(i), mark(j)} mark(i) && mark(j) && 0 <= i && i < width && 0 <= j && j < height ==> result.getUnchecked(i, j) == zero(T)
   ensures[fresh] fresh(result.slice)
 
 func New2DFilled
   property C08
+  opt nla uf
   requires width >= 0 && height >= 0
   ensures[inv]   inv(result) && result.width == width && result.height == height
-  ensures[cells] forall i, j :: 0 <= i && i < width && 0 <= j && j < height ==> result.getUnchecked(i, j) == value
+  ensures[cells] forall i, j :: {mark(i), mark(j)} mark(i) && mark(j) && 0 <= i && i < width && 0 <= j && j < height ==> result.getUnchecked(i, j) == value
   ensures[fresh] fresh(result.slice)
 
 func New2DFromJagged
   property C08
+  opt nla uf
   requires width >= 0 && height >= 0
   ensures[inv]   inv(result) && result.width == width && result.height == height
-  ensures[cells] forall i, j :: 0 <= i && i < width && 0 <= j && j < height ==> result.getUnchecked(i, j) == ite(j < len(jagged) && i < len(jagged[j]), jagged[j][i], zero(E))
+  ensures[cells] forall i, j :: {mark(i), mark(j)} mark(i) && mark(j) && 0 <= i && i < width && 0 <= j && j < height ==> result.getUnchecked(i, j) == ite(j < len(jagged) && i < len(jagged[j]), jagged[j][i], zero(E))
   ensures[fresh] fresh(result.slice)
   loop 0 invariant -1 <= rangeindex && inv(arr) && arr.width == width && arr.height == height && fresh(arr.slice)
-  loop 0 invariant forall i, j :: 0 <= i && i < width && 0 <= j && j < height ==> arr.getUnchecked(i, j) == ite(j <= rangeindex && j < len(jagged) && i < len(jagged[j]), jagged[j][i], zero(E))
+  loop 0 invariant forall i, j :: {mark(i), mark(j)} mark(i) && mark(j) && 0 <= i && i < width && 0 <= j && j < height ==> arr.getUnchecked(i, j) == ite(j <= rangeindex && j < len(jagged) && i < len(jagged[j]), jagged[j][i], zero(E))
 
 func Array2D.Get
   property C08
+  opt nla uf
   requires inv(a)
   panics_iff !(0 <= x && x < a.width && 0 <= y && y < a.height)
   on_panic ensures unchanged()
@@ -44,45 +50,63 @@ func Array2D.Get
 
 func Array2D.getUnchecked
   property C08
+  opt nla uf
+  inline
   requires inv(a) && 0 <= x && x < a.width && 0 <= y && y < a.height
-  ensures[inrange] true
+
+func Array2D.setUnchecked
+  property C08
+  opt nla uf
+  inline
+  requires inv(a) && 0 <= x && x < a.width && 0 <= y && y < a.height
+  ensures[cells] forall i, j :: {mark(i), mark(j)} mark(i) && mark(j) && 0 <= i && i < a.width && 0 <= j && j < a.height ==> a.getUnchecked(i, j) == ite(i == x && j == y, value, old(a.getUnchecked(i, j)))
+  assigns elems(a.slice)
 
 func Array2D.Set
   property C08
+  opt nla uf
   requires inv(a)
   panics_iff !(0 <= x && x < a.width && 0 <= y && y < a.height)
   on_panic ensures unchanged()
-  ensures[cells] forall i, j :: 0 <= i && i < a.width && 0 <= j && j < a.height ==> a.getUnchecked(i, j) == ite(i == x && j == y, value, old(a.getUnchecked(i, j)))
+  ensures[cells] forall i, j :: {mark(i), mark(j)} mark(i) && mark(j) && 0 <= i && i < a.width && 0 <= j && j < a.height ==> a.getUnchecked(i, j) == ite(i == x && j == y, value, old(a.getUnchecked(i, j)))
   assigns elems(a.slice)
 
 func Array2D.Row
   property C08
+  opt nla uf
   requires inv(a)
   panics_iff !(0 <= y && y < a.height)
   on_panic ensures unchanged()
   ensures[len]    len(result) == a.width
-  ensures[window] forall i :: 0 <= i && i < a.width ==> window(result[i:i+1], cellof(a.getUnchecked(i, y)), 0, 1)
+  ensures[window] forall i :: {mark(i)} mark(i) && 0 <= i && i < a.width ==> window(result[i:i+1], cellof(a.getUnchecked(i, y)), 0, 1)
 
 func Array2D.RowSpan
   property C08
+  opt nla uf
   requires inv(a)
+  requires x1 <= x2
   panics_iff !(0 <= x1 && x1 < a.width && 0 <= x2 && x2 < a.width && 0 <= y && y < a.height)
   on_panic ensures unchanged()
-  ensures[len]    x1 <= x2 ==> len(result) == x2 - x1 + 1
-  ensures[window] x1 <= x2 ==> forall i :: x1 <= i && i <= x2 ==> window(result[i-x1:i-x1+1], cellof(a.getUnchecked(i, y)), 0, 1)
+  ensures[len]    len(result) == x2 - x1 + 1
+  ensures[window] forall i :: {mark(i)} mark(i) && x1 <= i && i <= x2 ==> window(result[i-x1:i-x1+1], cellof(a.getUnchecked(i, y)), 0, 1)
 
 func Array2D.Fill
   property C08
+  opt nla uf
   requires inv(a)
   panics_iff !(0 <= x1 && x1 < a.width && 0 <= x2 && x2 < a.width && 0 <= y1 && y1 < a.height && 0 <= y2 && y2 < a.height)
   on_panic ensures unchanged()
-  ensures[cells] forall i, j :: 0 <= i && i < a.width && 0 <= j && j < a.height ==> a.getUnchecked(i, j) == ite(min(x1, x2) <= i && i <= max(x1, x2) && min(y1, y2) <= j && j <= max(y1, y2), value, old(a.getUnchecked(i, j)))
+  ensures[cells] forall i, j :: {mark(i), mark(j)} mark(i) && mark(j) && 0 <= i && i < a.width && 0 <= j && j < a.height ==> a.getUnchecked(i, j) == ite(min(x1, x2) <= i && i <= max(x1, x2) && min(y1, y2) <= j && j <= max(y1, y2), value, old(a.getUnchecked(i, j)))
   assigns elems(a.slice)
+  loop 0 invariant mark(y1) && y1 + 1 <= y && y <= y2 + 1 && same(firstRow, a.slice[x1 + y1*a.width : 1 + x2 + y1*a.width])
+  loop 0 invariant forall i :: 0 <= i && i <= x2 - x1 ==> firstRow[i] == value
+  loop 0 invariant forall i, j :: {mark(i), mark(j)} mark(i) && mark(j) && 0 <= i && i < a.width && 0 <= j && j < a.height ==> a.getUnchecked(i, j) == ite(x1 <= i && i <= x2 && y1 <= j && j < y, value, old(a.getUnchecked(i, j)))
 
 func Array2D.Clone
   property C08
+  opt nla uf
   requires inv(a)
   ensures[inv]   inv(result) && result.width == a.width && result.height == a.height
-  ensures[cells] forall i, j :: 0 <= i && i < a.width && 0 <= j && j < a.height ==> result.getUnchecked(i, j) == a.getUnchecked(i, j)
+  ensures[cells] forall i, j :: {mark(i), mark(j)} mark(i) && mark(j) && 0 <= i && i < a.width && 0 <= j && j < a.height ==> result.getUnchecked(i, j) == a.getUnchecked(i, j)
   ensures[fresh] fresh(result.slice)
 @*/
